@@ -5,7 +5,7 @@ ENGINE = 'mirfacts+genscan'
 EXPLANATION = ('On type-checked MIR of logos-codegen: (a) every Pattern::compile(false, ..) in generate is given the Some payload of subst_subpatterns applied to the definition\'s own '
                'escaped literal, and Subpatterns::new substitutes each subpattern against the table built so far before inserting it; (b) in subst_subpatterns a lookup miss '
                'records an error and forces None, a hit splices the stored pattern; (c) Subpattern::new stores "(?" flag ":" escaped-literal ")" with flag u/-u selected only by '
-               'the literal kind (decoded from the format_args! template constant). Decides scoping and ordering of the splice for every definition; not that textual splicing equals '
+               'the literal kind (decoded from the format_args! template constant). (d) the constant regexes that validate a name and recognise a reference accept the same ASCII identifiers (evaluated on the constants, M-C11d). Decides scoping and ordering of the splice for every definition; not that textual splicing equals '
                'structural inclusion for every pattern text.')
 
 
@@ -13,6 +13,7 @@ def run(ctx, rep):
     crate = ctx.mir('ws-default')['logos_codegen']
     cg.rule_sites(rep, crate, want=('C11',))
     cg.rule_subpatterns(rep, crate)
+    cg.rule_subpattern_names(rep, crate)
     rep.rules['M-C11a']['text'] = 'substitution precedes compilation at every regex-bearing site (skip, regex) and inside Subpatterns::new (against the table built so far, before insert)'
     rep.rules['M-C11a']['floor'] = 3
     cg.cg_controls(rep, ctx, [('M-C11c', cg.rule_subpatterns)])
